@@ -78,7 +78,7 @@ def run_proofs(run, keys, tier="quick", update_baseline=False, source_root=None)
             o = rep.discharged[len(rep.discharged) // 2]
             samples.append(dict(obligation=o["name"], path=o["path"], backend=o["backend"], ms=o["ms"], smt2_head=(o.get("smt") or "")[-1500:]))
         # vacuity: an unchanged function must generate at least the baseline's obligations
-        if base is not None and not changed and len(rep.obligations) < base["obligations"]:
+        if base is not None and not changed and not update_baseline and len(rep.obligations) < base["obligations"]:
             run.crashes.append(f"{key}: {len(rep.obligations)} obligations generated, baseline has {base['obligations']} (vacuity guard)")
         if not rep.obligations:
             run.crashes.append(f"{key}: zero obligations generated (vacuity guard)")
